@@ -299,7 +299,12 @@ class TemplateLookup(TemplateCollection):
             try:
                 # try returning from collection one
                 # more time in case concurrent thread already loaded
-                return self._collection[uri]
+                template = self._collection[uri]
+                # ...unless the file was modified after that thread read it
+                if not self.filesystem_checks or self._is_current(
+                    template, filename
+                ):
+                    return template
             except KeyError:
                 pass
             try:
@@ -323,6 +328,15 @@ class TemplateLookup(TemplateCollection):
                 raise
         finally:
             self._mutex.release()
+
+    def _is_current(self, template, filename):
+        if template.filename is None:
+            return True
+        try:
+            mtime = os.stat(filename)[stat.ST_MTIME]
+        except OSError:
+            return True
+        return template.module._modified_time >= mtime
 
     def _check(self, uri, template):
         if template.filename is None:
